@@ -22,6 +22,10 @@ def register(COMPONENTS, g):
         return comp_generic("find", tier, seed, NPROC, [], "find", 900 if tier == "quick" else 3000)
     COMPONENTS["find"] = comp_find
 
+    def comp_glob(tier, seed):
+        return comp_generic("glob", tier, seed, NPROC, [], "glob", 900 if tier == "quick" else 3000)
+    COMPONENTS["glob"] = comp_glob
+
 
 def register_props(PROPS, g):
     hash_rule = ("real files under a private root: all permutations of small base lists (with duplicates and directories), "
@@ -57,6 +61,15 @@ def register_props(PROPS, g):
                     "assumptions": ["paths are absolute and cleaned (Find cleans them); a directory listing is a list of (name, is-directory) pairs",
                                     "symbolic links and permissions are outside the model"],
                     "trusted_extra": ["os.ReadDir is abstracted as a partial map from directory paths to entry lists"]}
+    PROPS["C05"] = {"components": ["glob"], "oracle": ["C05"], "decode": None,
+                    "nontrivial": ("distinct_nontrivial", "(tree, pattern) cases with at least one matching non-hidden entry"),
+                    "rule": "real directory trees: every subset of a pool of 11 (thorough: 13) candidate paths x 23 patterns of the modelled fragment "
+                            "(expanded through parser -> file.New -> SpokFile.ExpandGlobs, twice) and 4 patterns with alternation/classes/'?' compared with doublestar.Match only; "
+                            "results compared as sets with the extracted walker model, which the driver also compares with glob_spec",
+                    "assumptions": ["directory listings are duplicate-free (os.ReadDir); results are compared as sets (a pattern like **/** makes the walker report an entry twice)",
+                                    "fragment: segments of literal bytes and '*', or '**'; classes, '?', alternation, escapes are outside the theorem and compared with the implementation's own Match only",
+                                    "a trailing '**' is anchored at a directory (a file named like the directory part matches nothing), as GlobWalk does"],
+                    "trusted_extra": ["bmatcuk/doublestar GlobWalk is modelled (transliterated for the fragment), not verified"]}
     PROPS["C03"] = {"components": ["graph"], "oracle": ["C03"], "decode": None,
                     "nontrivial": ("distinct_nontrivial", "cases whose selected task set (closure of the request) has at least two tasks"),
                     "rule": "spokfiles generated from dependency graphs, parsed, loaded with file.New and run with SpokFile.Run and a recording runner; "
